@@ -2,7 +2,7 @@
 # Re-run every seeded change against the current checks: apply, run the quick check of its property, revert.
 cd /verif
 for d in seeded/C*/; do
-  id=$(basename $d)
+  id=$(basename $d | cut -c1-3)
   git -C /repo checkout -- . 2>/dev/null
   if ! git -C /repo apply /verif/$d/patch.diff 2>/dev/null; then echo "$id APPLY-FAILED"; continue; fi
   out=$(python3 check.py $id --tier quick 2>&1 | grep -E "VIOLATION|quick\]" | tr '\n' ' ')
